@@ -700,6 +700,6 @@ func loadedRecvField(v ssa.Value) string {
 // decidedElsewhere: guards whose meaning a dedicated rule decides exactly, for every spelling; the inventory (which can
 // only tell that a spelling changed) does not report them.
 var decidedElsewhere = map[string]string{
-	"internal/bip32.DeriveScalar|>> const != const(uint32)":                         "SPEC-1 hardened-refused",
+	"internal/bip32.DeriveScalar|>> const != const(uint32)":                        "SPEC-1 hardened-refused",
 	"pkg/math/curve.(*Secp256k1Point).UnmarshalBinary|!= const & != const([]byte)": "DEC-1 prefix-refused / prefix-accepted (evaluation over all 256 prefix bytes)",
 }
